@@ -7,7 +7,7 @@ From BW Require Export Case.
    or None when the file set holds an unbalanced file and the run must fail *)
 Definition spec_list (exp : option (list (str * lblock))) (o : lobs) : bool :=
   match exp, o with
-  | Some e, LObsList bs => mset_eqb plblock_eqb e bs
+  | Some e, LObsList bs => mset_eqb plblock_eqb e bs && in_source_order bs
   | None, LObsErr c => c =? E_PARSE
   | _, _ => false
   end.
